@@ -91,6 +91,14 @@ CASES = {'quick': 3600, 'thorough': 200000}
 SHARDS = {'quick': 12, 'thorough': 16}
 TIMEOUT = {'quick': 600, 'thorough': 4 * 3600}
 SHRINK_BUDGET = (400, 120)
+# coverage-guided shards (vlib/fuzz_shard.py): libFuzzer drives the same strategy, guided by branch coverage of the pure-Python
+# construction code (no numba-jitted function lives in these modules)
+FUZZ = {'instrument': ['TidalPy.structures.world_builder.world_builder', 'TidalPy.structures.world_builder.config_handler',
+                       'TidalPy.utilities.dictionary_utils', 'TidalPy.utilities.classes.config.config',
+                       'TidalPy.structures.world_types.basic', 'TidalPy.structures.world_types.tidal',
+                       'TidalPy.structures.world_types.layered', 'TidalPy.structures.layers.basic',
+                       'TidalPy.structures.layers.physics', 'TidalPy.structures.layers.helper'],
+        'shards': {'quick': 2, 'thorough': 4}, 'cases': {'quick': 300, 'thorough': 12000}}
 
 LEN_RTOL = 1e-12
 VOL_RTOL = 1e-12
